@@ -28,7 +28,7 @@ func GenC14(t *rapid.T) *C14Case {
 	for i := range alphabet {
 		alphabet[i] = Kind(drawIdx(t, 7, "kind"))
 	}
-	c := &C14Case{Object: drawInt(t, 0, 2, "obj") == 0, Pred: drawInt(t, 0, 3, "pred"), Route: drawInt(t, 0, 7, "route")}
+	c := &C14Case{Object: oneIn(t, 3, "obj"), Pred: drawInt(t, 0, 3, "pred"), Route: drawInt(t, 0, 7, "route")}
 	for i := 0; i < n; i++ {
 		c.Kinds = append(c.Kinds, alphabet[drawIdx(t, nk, "k")])
 	}
